@@ -20,18 +20,18 @@ RULE = (
 )
 ASSUMPTIONS = [
     "integer-valued labelled data: float32 sums are exact, so equality is bit-exact except for the moments (tolerance 50*eps32*n relative, +1e-3 absolute on skew/kurtosis)",
-    "dedispersion delays are taken from the library's own Header.get_dmdelays (C09 checks that table); only delay tables with all delays >= 0 are in this property's scope",
+    "dedispersion delays are taken from the library's own Header.get_dmdelays (C09 checks that table) and counted from the earliest channel, so tables of either sign are covered (negative DMs included)",
     "a DM whose maxdelay >= nsamps is outside the quantifier and skipped",
 ]
-REQUIRED_OUTCOMES = ["collapse/ok", "bandpass/ok", "read_chan/ok", "dedisperse/ok", "dedisperse/gulp_lt_2maxdelay", "stats/ok", "stats_basic/ok", "gulp_identity/ok"]
+REQUIRED_OUTCOMES = ["collapse/ok", "bandpass/ok", "read_chan/ok", "dedisperse/ok", "dedisperse/gulp_lt_2maxdelay", "dedisperse/negative_delays", "stats/ok", "stats_basic/ok", "gulp_identity/ok"]
 
 EPS32 = float(np.finfo(np.float32).eps)
-DMS = [0.0, 1.0, 3.0, 8.0, 8.7, 14.0]
+DMS = [0.0, 1.0, 3.0, 8.0, 8.7, -3.0, -8.7, 14.0]
 
 
 def bounds(tier: str) -> dict:
     if tier == "quick":
-        return {"depths": [8, 32, 4], "N": 10, "splits": "single file", "dms": DMS[:5]}
+        return {"depths": [8, 32, 4], "N": 10, "splits": "single file", "dms": DMS[:6]}
     return {"depths": [8, 32, 4, 1, 2], "N": 16, "splits": "single file + 2 and 3 file sets", "dms": DMS}
 
 
@@ -80,8 +80,9 @@ def run_shard(shard: dict, ctx, res, only=None) -> None:
     delays = {}
     for dm in shard["dms"]:
         d = np.asarray(fil.header.get_dmdelays(dm)).astype(int)
-        if d.min() >= 0:
-            delays[dm] = d
+        # delays are counted from the earliest channel (for a negative DM the table is all <= 0 and the output starts
+        # -min(d) samples later); C09 decides the table itself and the start offset
+        delays[dm] = d - int(d.min())
     apis = ["collapse", "bandpass", *[f"read_chan:{c}" for c in range(C)], *[f"dedisperse:{dm}" for dm in delays], "stats", "stats_basic"]
     ranges = [(start, ns) for ns in range(1, N - start + 1)]
     if start == 0:
@@ -118,6 +119,8 @@ def run_shard(shard: dict, ctx, res, only=None) -> None:
                     md = int(delays[float(api.split(":")[1])].max())
                     if g < 2 * md:
                         res.outcome("dedisperse/gulp_lt_2maxdelay")
+                    if float(api.split(":")[1]) < 0 and md > 0:
+                        res.outcome("dedisperse/negative_delays")
                     multi = multi or md > 0
                 if multi or n_eff < N:
                     res.nontrivial += 1
